@@ -88,3 +88,29 @@ def alpha_rename(repo):
         visit(tree.body)
         out[f] = ast.unparse(tree) + "\n"
     return out
+
+
+class _IfFlipper(ast.NodeTransformer):
+    """`if c: A else: B` -> `if not (c): B else: A` for every two-armed if whose else-arm is not an elif chain"""
+
+    def visit_If(self, node):
+        self.generic_visit(node)
+        if node.orelse and not (len(node.orelse) == 1 and isinstance(node.orelse[0], ast.If)) \
+                and not (len(node.body) == 1 and isinstance(node.body[0], ast.If) and False):
+            t = node.test
+            if isinstance(t, ast.UnaryOp) and isinstance(t.op, ast.Not):
+                new_test = t.operand
+            else:
+                new_test = ast.UnaryOp(op=ast.Not(), operand=t)
+            return ast.copy_location(ast.If(test=new_test, body=node.orelse, orelse=node.body), node)
+        return node
+
+
+def flip_ifs(repo):
+    """every two-armed if written the other way round (tests the polarity handling of guard extraction)"""
+    out = {}
+    for f in code_files(repo):
+        tree = _IfFlipper().visit(ast.parse(repo.text(f)))
+        ast.fix_missing_locations(tree)
+        out[f] = ast.unparse(tree) + "\n"
+    return out
